@@ -194,9 +194,15 @@ pub fn mutants(kind: &str, base: &[u8], seed: u64, thorough: bool) -> Vec<(Strin
 
 /// Large *valid* structures (many dimensions, many attributes): the number of rights they span
 /// exceeds 2^24, 2^32, 2^64 — whatever a reader computes from the counts must not overflow.
-fn large_structs(template: &WStruct) -> Vec<(String, WStruct)> {
+fn large_structs(template: &WStruct, huge: bool) -> Vec<(String, WStruct)> {
     let mut out = vec![];
-    for (nd, na) in [(64usize, 1usize), (70, 1), (16, 15), (8, 255), (40, 2), (2, 300), (24, 1), (33, 3)] {
+    let mut shapes = vec![(64usize, 1usize), (70, 1), (16, 15), (8, 255), (40, 2), (2, 300), (24, 1), (33, 3)];
+    if huge {
+        // hundreds of thousands of attributes in one dimension (megabytes of input): parsing must
+        // stay linear — the 5 s CPU ceiling is ~20x the honest cost
+        shapes.extend([(1, 400_000), (2, 120_000)]);
+    }
+    for (nd, na) in shapes {
         let mut id = 0u64;
         let mut dims = vec![];
         for d in 0..nd {
@@ -319,7 +325,7 @@ fn structured(kind: &str, base: &[u8]) -> Vec<(String, Vec<u8>)> {
                 let mut m = w.clone();
                 m.structure.dims.clear();
                 out.push(("structured-empty-structure".into(), m.write()));
-                for (name, st) in large_structs(&w.structure) {
+                for (name, st) in large_structs(&w.structure, false) {
                     let mut m = w.clone();
                     m.structure = st;
                     out.push((name, m.write()));
@@ -348,7 +354,7 @@ fn structured(kind: &str, base: &[u8]) -> Vec<(String, Vec<u8>)> {
                 let mut m = w.clone();
                 m.structure.dims.clear();
                 out.push(("structured-empty-structure".into(), m.write()));
-                for (name, st) in large_structs(&w.structure) {
+                for (name, st) in large_structs(&w.structure, false) {
                     let mut m = w.clone();
                     m.structure = st;
                     out.push((name, m.write()));
@@ -357,7 +363,7 @@ fn structured(kind: &str, base: &[u8]) -> Vec<(String, Vec<u8>)> {
         }
         "structure" => {
             if let Ok(w) = WStruct::parse(base) {
-                for (name, m) in large_structs(&w) {
+                for (name, m) in large_structs(&w, true) {
                     let mut o = vec![];
                     m.write(&mut o);
                     out.push((name, o));
